@@ -59,7 +59,9 @@ func GenerateC05(r *rec.Rand, o GenOpts) *Scenario {
 		{Name: "blocked", RW: This(), Restr: []Restr{RObj("user"), RSet("team", "member")}},
 		{Name: "allowed", RW: This(), Restr: []Restr{RObj("user"), RWild("user"), RSet("group", "member")}},
 	}
-	switch r.Intn(6) {
+	switch r.Intn(7) {
+	case 6:
+		return g.prefixTypes()
 	case 0: // userset + TTU
 		g.s.Shape = "c05-userset+ttu"
 		g.s.Types = []TypeDef{user, group, team, {Name: "doc", Rels: append([]RelDef{
@@ -186,5 +188,70 @@ func (g *gen) wideIntersection() *Scenario {
 	rec.Shuffle(r, g.s.Tuples)
 	g.dropUnusedConds()
 	g.reqctx()
+	return g.s
+}
+
+// prefixTypes: a tuple-to-userset whose tupleset relation admits parent types whose NAMES are
+// prefixes of one another (folder / folderx / fold) with DIFFERENT conditions on the type
+// restrictions, so an engine that pushes per-restriction condition lists down to the datastore
+// (the pipeline's ObjectQuery.Conditions) must pick the restriction by the exact type.
+func (g *gen) prefixTypes() *Scenario {
+	r := g.r
+	g.s.Shape = "c05-prefix-types"
+	g.cond = []string{"c1"}
+	if r.Chance(1, 2) {
+		g.cond = append(g.cond, "c2")
+	}
+	g.s.Conds = g.cond
+	names := []string{"folder", "folderx"}
+	if r.Chance(1, 2) {
+		names = append(names, "fold")
+	}
+	rec.Shuffle(r, names) // declaration order matters for a first-match search
+	// every parent restriction gets its own condition list: none, c1, c2 (or both with and without)
+	choices := []string{"", "c1"}
+	if len(g.cond) > 1 {
+		choices = append(choices, "c2")
+	}
+	rec.Shuffle(r, choices)
+	var parent []Restr
+	types := []TypeDef{{Name: "user"}}
+	for i, n := range names {
+		c := choices[i%len(choices)]
+		x := RObj(n)
+		if c != "" {
+			x = x.With(c)
+		}
+		parent = append(parent, x)
+		if r.Chance(1, 5) { // the same type also with the other kind of restriction
+			if c == "" {
+				parent = append(parent, RObj(n).With("c1"))
+			} else {
+				parent = append(parent, RObj(n))
+			}
+		}
+		types = append(types, TypeDef{Name: n, Rels: []RelDef{{Name: "viewer", RW: This(), Restr: []Restr{RObj("user"), g.maybeCond(RWild("user"))}}}})
+	}
+	viewer := RelDef{Name: "viewer", RW: TTU("parent", "viewer")}
+	if r.Chance(1, 3) {
+		viewer = RelDef{Name: "viewer", RW: Union(This(), TTU("parent", "viewer")), Restr: []Restr{RObj("user")}}
+	}
+	types = append(types, TypeDef{Name: "doc", Rels: []RelDef{
+		{Name: "parent", RW: This(), Restr: parent},
+		viewer,
+		{Name: "blocked", RW: This(), Restr: []Restr{RObj("user")}},
+		{Name: "allowed", RW: Diff(Comp("viewer"), Comp("blocked"))},
+	}})
+	g.s.Types = types
+	if g.o.MaxTuples < 45 {
+		g.o.MaxTuples = 45
+	}
+	g.dropUnusedConds()
+	g.tuples()
+	// conditions must mostly hold for the objects to be visible: give the request context x = 1
+	g.s.ReqCtx = map[string]any{"x": 1}
+	if r.Chance(1, 4) {
+		g.reqctx()
+	}
 	return g.s
 }
